@@ -519,3 +519,189 @@ func LateTypenameDefs(s *Schema, tag string) []*Def {
 	}
 	return nil
 }
+
+// InputThenScalarsOp: an operation whose variable definitions stand on ONE line, an input-object
+// typed variable first and scalar / enum / list variables after it (the arguments of one or two
+// root fields).  Each variable has its own options: what use_struct_references does to the input
+// object must not reach its neighbours.
+func InputThenScalarsOp(s *Schema, tag string) *Def {
+	isInput := func(t *TypeRef) bool { d := s.Get(t.Base()); return d != nil && d.Kind == "INPUT" }
+	builtin := func(t *TypeRef) bool {
+		switch t.Base() {
+		case "Int", "Float", "String", "Boolean", "ID":
+			return true
+		}
+		d := s.Get(t.Base())
+		return d != nil && d.Kind == "ENUM"
+	}
+	var withInput, withScalar *FieldDef
+	for _, f := range s.FieldsOf("Query") {
+		ok := true
+		hasIn, hasSc := false, false
+		for _, a := range f.Args {
+			switch {
+			case isInput(a.Type):
+				hasIn = true
+			case builtin(a.Type):
+				hasSc = true
+			default:
+				ok = false // a custom scalar: bound to arbitrary Go types elsewhere
+			}
+		}
+		if !ok {
+			continue
+		}
+		if hasIn && withInput == nil {
+			withInput = f
+		}
+		if hasSc && !hasIn && withScalar == nil {
+			withScalar = f
+		}
+		if hasIn && hasSc {
+			withInput, withScalar = f, nil
+			break
+		}
+	}
+	if withInput == nil {
+		return nil
+	}
+	fields := []*FieldDef{withInput}
+	if withScalar != nil {
+		fields = append(fields, withScalar)
+	}
+	type vr struct {
+		name, typ string
+		input     bool
+	}
+	var vars []vr
+	var sels []string
+	for fi, f := range fields {
+		var args []string
+		for _, a := range f.Args {
+			vn := fmt.Sprintf("v%d%s", fi, a.Name)
+			vars = append(vars, vr{vn, a.Type.String(), isInput(a.Type)})
+			args = append(args, a.Name+": $"+vn)
+		}
+		sel := fmt.Sprintf("  f%d: %s(%s)", fi, f.Name, strings.Join(args, ", "))
+		if !s.IsLeaf(f.Type.Base()) {
+			sel += " {\n    __typename\n  }"
+		}
+		sels = append(sels, sel)
+	}
+	hasScalar := false
+	for _, v := range vars {
+		if !v.input {
+			hasScalar = true
+		}
+	}
+	if !hasScalar {
+		return nil
+	}
+	var ordered []string
+	for _, in := range []bool{true, false} {
+		for _, v := range vars {
+			if v.input == in {
+				ordered = append(ordered, "$"+v.name+": "+v.typ)
+			}
+		}
+	}
+	op := "Hz" + tag + "Q"
+	return &Def{Kind: "query", Name: op, Text: fmt.Sprintf("query %s(%s) {\n%s\n}\n", op, strings.Join(ordered, ", "), strings.Join(sels, "\n"))}
+}
+
+// LeafTypenameClashOp: two leaf fields of DIFFERENT scalar types given the same `typename`
+// (no selection set to compare: only the GraphQL type tells them apart; must be rejected).
+func LeafTypenameClashOp(s *Schema, tag string) *Def {
+	noReq := func(f *FieldDef) bool {
+		for _, a := range f.Args {
+			if a.Type.NonNull && a.Default == "" {
+				return false
+			}
+		}
+		return true
+	}
+	builtin := func(n string) bool {
+		switch n {
+		case "Int", "Float", "String", "Boolean", "ID":
+			return true
+		}
+		return false
+	}
+	for _, f := range s.FieldsOf("Query") {
+		td := s.Get(f.Type.Base())
+		if td == nil || td.Kind != "OBJECT" || !noReq(f) {
+			continue
+		}
+		var a, c *FieldDef
+		for _, l := range td.Fields {
+			if !builtin(l.Type.Base()) || !noReq(l) {
+				continue
+			}
+			if a == nil {
+				a = l
+			} else if c == nil && l.Type.Base() != a.Type.Base() {
+				c = l
+			}
+		}
+		if a == nil || c == nil {
+			continue
+		}
+		op := "Hz" + tag + "Q"
+		tn := "Hz" + tag + "Amount"
+		return &Def{Kind: "query", Name: op, Text: fmt.Sprintf(
+			"query %s {\n  %s {\n    # @genqlient(typename: %q)\n    %s\n    # @genqlient(typename: %q)\n    %s\n  }\n}\n",
+			op, f.Name, tn, a.Name, tn, c.Name)}
+	}
+	return nil
+}
+
+// BoundObjectUnboundHereOp: an object type with a GLOBAL binding, used once with the documented
+// `typename: ..., bind: "-"` (generate a struct here after all).  Returns the operation and the
+// bound type's name.
+func BoundObjectUnboundHereOp(s *Schema, tag string) (*Def, string) {
+	for _, f := range s.FieldsOf("Query") {
+		td := s.Get(f.Type.Base())
+		if td == nil || td.Kind != "OBJECT" || len(td.Implements) > 0 {
+			continue
+		}
+		// (a bound type cannot be an implementation of an abstract type genqlient generates)
+		member := false
+		for _, u := range s.Types {
+			if u.Kind == "UNION" {
+				for _, m := range u.Members {
+					if m == td.Name {
+						member = true
+					}
+				}
+			}
+		}
+		if member {
+			continue
+		}
+		req := false
+		for _, a := range f.Args {
+			if a.Type.NonNull && a.Default == "" {
+				req = true
+			}
+		}
+		if req {
+			continue
+		}
+		leaf := ""
+		for _, lf := range td.Fields {
+			switch lf.Type.Base() {
+			case "Int", "Float", "String", "Boolean", "ID":
+				if len(lf.Args) == 0 {
+					leaf = lf.Name
+				}
+			}
+		}
+		if leaf == "" {
+			continue
+		}
+		op := "Hz" + tag + "Q"
+		return &Def{Kind: "query", Name: op, Text: fmt.Sprintf(
+			"query %s {\n  # @genqlient(typename: \"Hz%sHere\", bind: \"-\")\n  %s {\n    %s\n  }\n}\n", op, tag, f.Name, leaf)}, td.Name
+	}
+	return nil, ""
+}
